@@ -101,6 +101,59 @@ theorem plain_det (g : Grammar) (hu : Uniform g) (hm : g.memo = false) (sk : Boo
   cases h3
   exact ⟨rfl, hq'⟩
 
+/-! ## the failure record `nm` -/
+
+/-- `nm` as a number: `None` is below every position -/
+def nmv : Option Nat → Nat
+  | .none => 0
+  | some p => p + 1
+
+theorem nmv_inj {a b : Option Nat} (h : nmv a = nmv b) : a = b := by
+  cases a <;> cases b <;> simp_all [nmv]
+
+theorem nmRaise_nmv (s : PState) (c : Nat) (h : s.inComments = false) :
+    nmv (s.nmRaise c).nm = max (nmv s.nm) (c + 1) := by
+  unfold PState.nmRaise
+  cases hn : s.nm with
+  | none => simp [h, nmv]
+  | some q =>
+    simp only [h, Option.isNone_some, Bool.not_false, Bool.or_true, if_true]
+    by_cases hc : c > q
+    · simp only [hc, if_true, nmv]; omega
+    · simp only [hc, if_false, nmv, hn]; omega
+
+/-- `Qc` plus: both failure records are "the initial one joined with the same increment" -/
+def Qn (sk : Bool) (w : List Char) (a0 b0 : Nat) (a b : PState) : Prop :=
+  Qc sk w a b ∧ ∃ F, nmv a.nm = max a0 F ∧ nmv b.nm = max b0 F
+
+theorem qn_ok (sk : Bool) (w : List Char) (a0 b0 : Nat) : QOK (Qn sk w a0 b0) where
+  pos := fun h => (qc_ok sk w).pos h.1
+  skipws := fun h => (qc_ok sk w).skipws h.1
+  ws := fun h => (qc_ok sk w).ws h.1
+  notInC := fun h => (qc_ok sk w).notInC h.1
+  idcp := fun h => (qc_ok sk w).idcp h.1
+  setPos := fun h c => ⟨(qc_ok sk w).setPos h.1 c, h.2⟩
+  nmR := fun {a b} h c => by
+    refine ⟨(qc_ok sk w).nmR h.1 c, ?_⟩
+    obtain ⟨F, h1, h2⟩ := h.2
+    refine ⟨max F (c + 1), ?_, ?_⟩
+    · rw [nmRaise_nmv a c h.1.2.2.2.2.2.1, h1]; omega
+    · rw [nmRaise_nmv b c h.1.2.2.2.2.2.2.1, h2]; omega
+  setCP := fun h l l' hl hl' => ⟨(qc_ok sk w).setCP h.1 l l' hl hl', h.2⟩
+
+/-- two finished plain runs from the same position raise the failure record by the same increment -/
+theorem plain_det_nm (g : Grammar) (hu : Uniform g) (hm : g.memo = false) (sk : Bool) (w : List Char)
+    {n m e : Nat} {s s' t t' : PState} {r r' : Res} (hq : Qc sk w s s')
+    (h1 : parse g n e s = (r, t)) (hr : r ≠ .fuel) (h2 : parse g m e s' = (r', t')) (hr' : r' ≠ .fuel) :
+    ∃ F, nmv t.nm = max (nmv s.nm) F ∧ nmv t'.nm = max (nmv s'.nm) F := by
+  have h1' := parse_le g (Nat.le_max_left n m) e s r t h1 hr
+  have h2' := parse_le g (Nat.le_max_right n m) e s' r' t' h2 hr'
+  have hq0 : Qn sk w (nmv s.nm) (nmv s'.nm) s s' := ⟨hq, 0, by omega, by omega⟩
+  obtain ⟨t'', h3, hq'⟩ := plain_sim (qn_ok sk w _ _) g hu hm (max n m) e s s' r t hq0 h1' hr
+  rw [h2'] at h3
+  cases h3
+  exact hq'.2
+
 /-! ## the memoizing interpreter -/
 
 def resOf : Option Val → Res
@@ -108,13 +161,20 @@ def resOf : Option Val → Res
   | .none => .nomatch
 
 /-- every cache entry is the outcome of some finished plain run from its position -/
-def CacheValid (g : Grammar) (sk : Bool) (w : List Char) (cache : List ((Nat × Nat) × (Option Val × Nat))) : Prop :=
+def CacheValid (g : Grammar) (sk : Bool) (w : List Char) (bound : Nat)
+    (cache : List ((Nat × Nat) × (Option Val × Nat))) : Prop :=
   ∀ i p ro np, ((i, p), (ro, np)) ∈ cache →
-    ∃ k u u', Qc sk w u u ∧ u.pos = p ∧ parse g k i u = (resOf ro, u') ∧ u'.pos = np
+    ∃ k u u', Qc sk w u u ∧ u.pos = p ∧ parse g k i u = (resOf ro, u') ∧ u'.pos = np ∧ nmv u'.nm ≤ bound
+
+theorem CacheValid.mono {g : Grammar} {sk : Bool} {w : List Char} {b b' : Nat} {c}
+    (h : CacheValid g sk w b c) (hb : b ≤ b') : CacheValid g sk w b' c := by
+  intro i p ro np hm
+  obtain ⟨k, u, u', h1, h2, h3, h4, h5⟩ := h i p ro np hm
+  exact ⟨k, u, u', h1, h2, h3, h4, Nat.le_trans h5 hb⟩
 
 /-- plain state vs memoizing state -/
 def Qm (g : Grammar) (sk : Bool) (w : List Char) (sP sM : PState) : Prop :=
-  Qc sk w sP sM ∧ CacheValid g sk w sM.cache
+  Qc sk w sP sM ∧ sP.nm = sM.nm ∧ CacheValid g sk w (nmv sM.nm) sM.cache
 
 theorem qm_ok (g : Grammar) (sk : Bool) (w : List Char) : QOK (Qm g sk w) where
   pos := fun h => (qc_ok sk w).pos h.1
@@ -123,7 +183,14 @@ theorem qm_ok (g : Grammar) (sk : Bool) (w : List Char) : QOK (Qm g sk w) where
   notInC := fun h => (qc_ok sk w).notInC h.1
   idcp := fun h => (qc_ok sk w).idcp h.1
   setPos := fun h c => ⟨(qc_ok sk w).setPos h.1 c, h.2⟩
-  nmR := fun {a b} h c => ⟨(qc_ok sk w).nmR h.1 c, by rw [(nmRaise_frame b c).2.2.2.2.2]; exact h.2⟩
+  nmR := fun {a b} h c => by
+    have hia := h.1.2.2.2.2.2.1
+    have hib := h.1.2.2.2.2.2.2.1
+    have e : (a.nmRaise c).nm = (b.nmRaise c).nm := by
+      apply nmv_inj; rw [nmRaise_nmv a c hia, nmRaise_nmv b c hib, h.2.1]
+    refine ⟨(qc_ok sk w).nmR h.1 c, e, ?_⟩
+    rw [(nmRaise_frame b c).2.2.2.2.2]
+    exact h.2.2.mono (by rw [nmRaise_nmv b c hib]; omega)
   setCP := fun h l l' hl hl' => ⟨(qc_ok sk w).setCP h.1 l l' hl hl', h.2⟩
 
 theorem lookupCache_mem {s : PState} {id pos : Nat} {x : Option Val × Nat}
@@ -196,13 +263,20 @@ theorem memo_step (g : Grammar) (hu : Uniform g) (hm : g.memo = false) (sk : Boo
       cases hl : lookupCache sM id sM.pos with
       | some x =>
         obtain ⟨ro, np⟩ := x
-        obtain ⟨k, u, u', hqu, hup, hrun, hnp⟩ := hq.2 id sM.pos ro np (lookupCache_mem hl)
+        obtain ⟨k, u, u', hqu, hup, hrun, hnp, hbound⟩ := hq.2.2 id sM.pos ro np (lookupCache_mem hl)
         have hne : resOf ro ≠ .fuel := by cases ro <;> simp [resOf]
-        have hdet := plain_det g hu hm sk w (Qc.trans_pos hqu hq.1 (hup.trans hposPM.symm)) hrun hne hfull hr
+        have hqus := Qc.trans_pos hqu hq.1 (hup.trans hposPM.symm)
+        have hdet := plain_det g hu hm sk w hqus hrun hne hfull hr
+        obtain ⟨F, hF1, hF2⟩ := plain_det_nm g hu hm sk w hqus hrun hne hfull hr
         obtain ⟨hreq, hqt⟩ := hdet
+        have hnmP : tP.nm = sM.nm := by
+          apply nmv_inj
+          rw [hF2, hq.2.1]
+          have : F ≤ nmv sM.nm := by omega
+          omega
         have hqM : Qm g sk w tP { sM with pos := np } :=
           ⟨⟨hqt.1.symm.trans hnp, hqt.2.2.1, hq.1.2.2.1, hqt.2.2.2.2.1, hq.1.2.2.2.2.1, hqt.2.2.2.2.2.2.1,
-            hq.1.2.2.2.2.2.2.1, hqt.2.2.2.2.2.2.2.2, hq.1.2.2.2.2.2.2.2.2⟩, hq.2⟩
+            hq.1.2.2.2.2.2.2.1, hqt.2.2.2.2.2.2.2.2, hq.1.2.2.2.2.2.2.2.2⟩, hnmP, hq.2.2⟩
         cases ro with
         | some v =>
           simp only [cacheHit, if_true, hl]
@@ -223,25 +297,25 @@ theorem memo_step (g : Grammar) (hu : Uniform g) (hm : g.memo = false) (sk : Boo
         · simp only [cacheStore, Bool.false_eq_true, if_false] at h1
           simp only [cacheStore, if_true]
           cases h1
-          refine ⟨_, rfl, ⟨?_, ?_⟩⟩
+          refine ⟨_, rfl, ⟨?_, hq1.2.1, ?_⟩⟩
           · exact ⟨hq1.1.1, hq1.1.2.1, hq1.1.2.2.1, hq1.1.2.2.2.1, hq1.1.2.2.2.2.1, hq1.1.2.2.2.2.2.1,
               hq1.1.2.2.2.2.2.2.1, hq1.1.2.2.2.2.2.2.2.1, hq1.1.2.2.2.2.2.2.2.2⟩
           · intro i p ro np hmem
             simp only [List.mem_cons, Prod.mk.injEq] at hmem
             rcases hmem with ⟨⟨rfl, rfl⟩, rfl, rfl⟩ | hmem
-            · exact ⟨n+1, sP, _, hq.1.left, rfl, hfull, hq1.1.1⟩
-            · exact hq1.2 i p ro np hmem
+            · exact ⟨n+1, sP, _, hq.1.left, rfl, hfull, hq1.1.1, by rw [hq1.2.1]; exact Nat.le_refl _⟩
+            · exact hq1.2.2 i p ro np hmem
         · simp only [cacheStore, Bool.false_eq_true, if_false] at h1
           simp only [cacheStore, if_true]
           cases h1
-          refine ⟨_, rfl, ⟨?_, ?_⟩⟩
+          refine ⟨_, rfl, ⟨?_, hq1.2.1, ?_⟩⟩
           · exact ⟨rfl, hq1.1.2.1, hq1.1.2.2.1, hq1.1.2.2.2.1, hq1.1.2.2.2.2.1, hq1.1.2.2.2.2.2.1,
               hq1.1.2.2.2.2.2.2.1, hq1.1.2.2.2.2.2.2.2.1, hq1.1.2.2.2.2.2.2.2.2⟩
           · intro i p ro np hmem
             simp only [List.mem_cons, Prod.mk.injEq] at hmem
             rcases hmem with ⟨⟨rfl, rfl⟩, rfl, rfl⟩ | hmem
-            · exact ⟨n+1, sP, _, hq.1.left, rfl, hfull, rfl⟩
-            · exact hq1.2 i p ro np hmem
+            · exact ⟨n+1, sP, _, hq.1.left, rfl, hfull, rfl, by rw [← hq1.2.1]; exact Nat.le_refl _⟩
+            · exact hq1.2.2 i p ro np hmem
         · exact absurd rfl hne
         · simp only [cacheStore] at h1 ⊢; cases h1; exact ⟨s1M, rfl, hq1⟩
     cases hkind : nd.kind <;> simp only [hkind] at h1 ⊢
